@@ -40,7 +40,11 @@ def parse_demo(seed):
             c = line.strip().strip("`").strip()
             c = re.sub(r"^\$\s*", "", c)
             if "-run" in c or "go run" in c:
-                cmd = c
+                # "cd <repo>/dnsrocks && go test ..." -> the go command only (it is run in dnsrocks/)
+                c = re.sub(r"^\(?\s*cd\s+\S+\s*&&\s*", "", c)
+                c = re.sub(r"^(export\s+[^;&]+(;|&&)\s*)+", "", c)
+                c = c[c.index("go "):] if "go " in c else c
+                cmd = c.rstrip(")")
                 break
     return files, dests, cmd
 
